@@ -3,10 +3,10 @@ NEXT Next
 CONSTANTS
   Pos = {1, 2}
   ReadBases = {"A", "C"}
-  Quals = {10, 20}
+  Quals = {10}
   MaxReads = 3
   Refs <- RefsTwo
-  Cap = 0
+  Cap = 1
   MaxNs1 = {0}
   Variant = "design"
 INVARIANT Inv_C15_Exists
